@@ -373,3 +373,29 @@ Definition null_text : bytes := [110; 117; 108; 108].
 (** times that the u64 cast orders like the integers: present and non-negative *)
 Definition time_ok (e : event) : bool :=
   match e_time e with Some z => (0 <=? z)%Z && (z <? 2 ^ 63)%Z | None => false end.
+
+(** KnownClass SubQueryNotComplement (C02's NotComplement seen through a sequence query): the WHERE
+    pushed into the sub-query of a type contains a NOT, and that sub-query delivers only a part of
+    the rows satisfying it (a flushed zone holding both a matching and a non-matching row of the
+    negated condition is dropped whole).  [stored]: the rows of the type, [delivered]: the positions
+    the sub-query returned. *)
+Fixpoint has_not (e : expr) : bool :=
+  match e with
+  | ECmp _ _ _ _ => false
+  | EAnd l r | EOr l r => has_not l || has_not r
+  | ENot _ => true
+  end.
+Definition mem_pos (p : N) (l : list N) : bool := existsb (N.eqb p) l.
+Definition not_complement_loss (wh : option expr) (ty : bytes) (stored : list event) (delivered : list N) : bool :=
+  match wh with
+  | None => false
+  | Some e =>
+      match transform e ty with
+      | None => false
+      | Some t =>
+          let expect := map e_pos (sub_query wh ty stored) in
+          has_not t
+          && forallb (fun p => mem_pos p expect) delivered                 (* nothing but satisfying rows *)
+          && negb (forallb (fun p => mem_pos p delivered) expect)          (* some satisfying row is missing *)
+      end
+  end.
